@@ -354,7 +354,15 @@ static char f32u16[] = "cvttss2sil %xmm0, %eax; movzwl %ax, %eax";
 static char f32i32[] = "cvttss2sil %xmm0, %eax";
 static char f32u32[] = "cvttss2siq %xmm0, %rax";
 static char f32i64[] = "cvttss2siq %xmm0, %rax";
-static char f32u64[] = "cvttss2siq %xmm0, %rax";
+// cvttss2siq/cvttsd2siq/fistpq convert to a signed 64-bit integer. For a
+// float or double >= 2^63 subtract 2^63 first and set the top bit
+// afterwards. A long double in [2^63, 2^64) is an integer that equals
+// its 64-bit significand, which is the low quadword of its memory image.
+static char f32u64[] =
+  "mov $0x5f000000, %eax; movq %rax, %xmm1; ucomiss %xmm1, %xmm0; jae 1f; "
+  "cvttss2siq %xmm0, %rax; jmp 2f; "
+  "1: subss %xmm1, %xmm0; cvttss2siq %xmm0, %rax; "
+  "mov $0x8000000000000000, %rdi; xor %rdi, %rax; 2:";
 static char f32f64[] = "cvtss2sd %xmm0, %xmm0";
 static char f32f80[] = "movss %xmm0, -4(%rsp); flds -4(%rsp)";
 
@@ -365,7 +373,11 @@ static char f64u16[] = "cvttsd2sil %xmm0, %eax; movzwl %ax, %eax";
 static char f64i32[] = "cvttsd2sil %xmm0, %eax";
 static char f64u32[] = "cvttsd2siq %xmm0, %rax";
 static char f64i64[] = "cvttsd2siq %xmm0, %rax";
-static char f64u64[] = "cvttsd2siq %xmm0, %rax";
+static char f64u64[] =
+  "mov $0x43e0000000000000, %rax; movq %rax, %xmm1; ucomisd %xmm1, %xmm0; jae 1f; "
+  "cvttsd2siq %xmm0, %rax; jmp 2f; "
+  "1: subsd %xmm1, %xmm0; cvttsd2siq %xmm0, %rax; "
+  "mov $0x8000000000000000, %rdi; xor %rdi, %rax; 2:";
 static char f64f32[] = "cvtsd2ss %xmm0, %xmm0";
 static char f64f80[] = "movsd %xmm0, -8(%rsp); fldl -8(%rsp)";
 
@@ -382,7 +394,10 @@ static char f80u16[] = FROM_F80_1 "fistpl" FROM_F80_2 "movzwl -24(%rsp), %eax";
 static char f80i32[] = FROM_F80_1 "fistpl" FROM_F80_2 "mov -24(%rsp), %eax";
 static char f80u32[] = FROM_F80_1 "fistpq" FROM_F80_2 "mov -24(%rsp), %eax";
 static char f80i64[] = FROM_F80_1 "fistpq" FROM_F80_2 "mov -24(%rsp), %rax";
-static char f80u64[] = FROM_F80_1 "fistpq" FROM_F80_2 "mov -24(%rsp), %rax";
+static char f80u64[] =
+  "mov $0x5f000000, %eax; mov %eax, -4(%rsp); flds -4(%rsp); fucomip %st(1), %st; jbe 1f; "
+  FROM_F80_1 "fistpq" FROM_F80_2 "mov -24(%rsp), %rax; jmp 2f; "
+  "1: fstpt -24(%rsp); mov -24(%rsp), %rax; 2:";
 static char f80f32[] = "fstps -8(%rsp); movss -8(%rsp), %xmm0";
 static char f80f64[] = "fstpl -8(%rsp); movsd -8(%rsp), %xmm0";
 
